@@ -6,9 +6,32 @@
  */
 #include "rdsquashfs.h"
 
-static int print_name(const sqfs_tree_node_t *n, bool dont_escape)
+/*
+ * Print a string the way split_line() in gensquashfs reads it back: as is, if
+ * it is a single token already, otherwise wrapped in quotation marks, with
+ * a backslash in front of every quotation mark and backslash.
+ */
+static void print_escaped(const char *str)
 {
-	char *start, *ptr, *name;
+	if (*str != '\0' && strpbrk(str, " \t\r\"\\") == NULL) {
+		fputs(str, stdout);
+		return;
+	}
+
+	fputc('"', stdout);
+
+	for (; *str != '\0'; ++str) {
+		if (*str == '"' || *str == '\\')
+			fputc('\\', stdout);
+		fputc(*str, stdout);
+	}
+
+	fputc('"', stdout);
+}
+
+static int print_name(const sqfs_tree_node_t *n, const char *prefix)
+{
+	char *name, *full;
 	int ret;
 
 	ret = sqfs_tree_node_get_path(n, &name);
@@ -23,30 +46,21 @@ static int print_name(const sqfs_tree_node_t *n, bool dont_escape)
 		return -1;
 	}
 
-	if (dont_escape || (strchr(name, ' ') == NULL &&
-			    strchr(name, '"') == NULL)) {
-		fputs(name, stdout);
-	} else {
-		fputc('"', stdout);
-
-		ptr = strchr(name, '"');
-
-		if (ptr != NULL) {
-			start = name;
-
-			do {
-				fwrite(start, 1, ptr - start, stdout);
-				fputs("\\\"", stdout);
-				start = ptr + 1;
-				ptr = strchr(start, '"');
-			} while (ptr != NULL);
-
-			fputs(start, stdout);
-		} else {
-			fputs(name, stdout);
+	if (prefix != NULL) {
+		full = malloc(strlen(prefix) + strlen(name) + 2);
+		if (full == NULL) {
+			perror("Printing file path of tree node");
+			sqfs_free(name);
+			return -1;
 		}
 
-		fputc('"', stdout);
+		sprintf(full, "%s/%s", prefix, name);
+		print_escaped(full);
+		free(full);
+	} else if (name[0] == '\0') {
+		fputc('/', stdout);
+	} else {
+		print_escaped(name);
 	}
 
 	sqfs_free(name);
@@ -63,11 +77,23 @@ static int print_simple(const char *type, const sqfs_tree_node_t *n,
 			const char *extra)
 {
 	printf("%s ", type);
-	if (print_name(n, false))
+	if (print_name(n, NULL))
 		return -1;
 	print_perm(n);
 	if (extra != NULL)
 		printf(" %s", extra);
+	fputc('\n', stdout);
+	return 0;
+}
+
+static int print_slink(const sqfs_tree_node_t *n)
+{
+	fputs("slink ", stdout);
+	if (print_name(n, NULL))
+		return -1;
+	print_perm(n);
+	fputc(' ', stdout);
+	print_escaped((const char *)n->inode->extra);
 	fputc('\n', stdout);
 	return 0;
 }
@@ -86,8 +112,7 @@ int describe_tree(const sqfs_tree_node_t *root, const char *unpack_root)
 	case S_IFSOCK:
 		return print_simple("sock", root, NULL);
 	case S_IFLNK:
-		return print_simple("slink", root,
-				    (const char *)root->inode->extra);
+		return print_slink(root);
 	case S_IFIFO:
 		return print_simple("pipe", root, NULL);
 	case S_IFREG:
@@ -95,11 +120,11 @@ int describe_tree(const sqfs_tree_node_t *root, const char *unpack_root)
 			return print_simple("file", root, NULL);
 
 		fputs("file ", stdout);
-		if (print_name(root, false))
+		if (print_name(root, NULL))
 			return -1;
 		print_perm(root);
-		printf(" %s/", unpack_root);
-		if (print_name(root, true))
+		fputc(' ', stdout);
+		if (print_name(root, unpack_root))
 			return -1;
 		fputc('\n', stdout);
 		break;
@@ -121,7 +146,7 @@ int describe_tree(const sqfs_tree_node_t *root, const char *unpack_root)
 		return print_simple("nod", root, buffer);
 	}
 	case S_IFDIR:
-		if (root->name[0] != '\0') {
+		if (root->name[0] != '\0' || root->parent == NULL) {
 			if (print_simple("dir", root, NULL))
 				return -1;
 		}
